@@ -1084,33 +1084,35 @@ namespace chaiscript {
 
         Char_Parser &operator=(const Char_Parser &) = delete;
 
-        ~Char_Parser() {
-          try {
-            if (is_octal) {
-              process_octal();
-            }
+        /// Flushes an escape sequence that is still pending at the end of the literal.
+        /// Must be called once all characters have been fed to parse(); reports
+        /// incomplete sequences (they used to be silently swallowed by the destructor).
+        void finish() {
+          if (is_octal) {
+            process_octal();
+          }
 
-            if (is_hex) {
-              process_hex();
-            }
+          if (is_hex) {
+            process_hex();
+          }
 
-            if (unicode_size > 0) {
-              process_unicode();
-            }
-          } catch (const std::invalid_argument &) {
-          } catch (const exception::eval_error &) {
-            // Something happened with parsing, we'll catch it later?
+          if (unicode_size > 0) {
+            process_unicode();
           }
         }
 
         void process_hex() {
-          if (!hex_matches.empty()) {
+          const bool empty = hex_matches.empty();
+          if (!empty) {
             auto val = stoll(hex_matches, nullptr, 16);
             match.push_back(char_type(val));
           }
           hex_matches.clear();
           is_escaped = false;
           is_hex = false;
+          if (empty) {
+            throw exception::eval_error("Incomplete hexadecimal escape sequence");
+          }
         }
 
         void process_octal() {
@@ -1124,18 +1126,19 @@ namespace chaiscript {
         }
 
         void process_unicode() {
-          const auto ch = static_cast<uint32_t>(std::stoi(hex_matches, nullptr, 16));
           const auto match_size = hex_matches.size();
+          const auto u_size = unicode_size;
+          // at most 8 hex digits: always fits an unsigned long
+          const auto ch = match_size == 0 ? uint32_t(0) : static_cast<uint32_t>(std::stoul(hex_matches, nullptr, 16));
           hex_matches.clear();
           is_escaped = false;
-          const auto u_size = unicode_size;
           unicode_size = 0;
 
           char buf[4];
           if (u_size != match_size) {
             throw exception::eval_error("Incomplete unicode escape sequence");
           }
-          if (u_size == 4 && ch >= 0xD800 && ch <= 0xDFFF) {
+          if (ch >= 0xD800 && ch <= 0xDFFF) {
             throw exception::eval_error("Invalid 16 bit universal character");
           }
 
@@ -1150,7 +1153,7 @@ namespace chaiscript {
             buf[1] = static_cast<char>(0x80 | ((ch >> 6) & 0x3F));
             buf[2] = static_cast<char>(0x80 | (ch & 0x3F));
             match.append(buf, 3);
-          } else if (ch < 0x200000) {
+          } else if (ch < 0x110000) {
             buf[0] = static_cast<char>(0xF0 | (ch >> 18));
             buf[1] = static_cast<char>(0x80 | ((ch >> 12) & 0x3F));
             buf[2] = static_cast<char>(0x80 | ((ch >> 6) & 0x3F));
@@ -1349,6 +1352,8 @@ namespace chaiscript {
               }
             }
 
+            cparser.finish();
+
             if (cparser.saw_interpolation_marker) {
               match.push_back('$');
             }
@@ -1412,6 +1417,7 @@ namespace chaiscript {
             for (auto s = start + 1, end = m_position - 1; s != end; ++s) {
               cparser.parse(*s, start.line, start.col, *m_filename);
             }
+            cparser.finish();
           }
 
           if (match.size() != 1) {
